@@ -137,6 +137,34 @@ def eval_graph(c, sub):
                             break
         finally:
             pmod.np = real
+    # query -> grow the same object -> query again: the answers must track the graph (no stale memo of an earlier answer)
+    if 2 <= len(sub):
+        import dynetx as dn
+        H = getattr(dn, c['cls'])()
+        Pp = set()
+        chosen = sorted((atoms[i] for i in sub), key=lambda a: (a[2], a[0], a[1]))
+        for step, (i, j, t) in enumerate(chosen):
+            H.add_interaction(nodes[i], nodes[j], T[t])
+            Pp.add((nodes[i], nodes[j], T[t]))
+            if not directed:
+                Pp.add((nodes[j], nodes[i], T[t]))
+            pids = sorted(set(x[2] for x in Pp))
+            for u in list(H.nodes()):
+                cnt['queries'] += 1
+                cnt['incremental_queries'] += 1
+                want = po.brute_paths(Pp, directed, pids, u, None, None, None)
+                try:
+                    got = _flat(al.time_respecting_paths(H, u))
+                except Exception as ex:
+                    got = None
+                if got != want:
+                    viols.append(Violation(PROP, 'incremental', {'kind': 'answer-does-not-track-the-graph', 'cls': c['cls'],
+                                                                 'stale': got is not None and bool(want - got)},
+                                           case(['incremental', step, repr(u)]),
+                                           {'graph so far': ['add_interaction(%r, %r, t=%r)' % (nodes[a], nodes[b], T[tt]) for (a, b, tt) in chosen[:step + 1]],
+                                            'call': 'time_respecting_paths(G, %r) after each add_interaction on the same object' % (u,),
+                                            'missing': repr(sorted(want - (got or set()))[:4]), 'extra': repr(sorted((got or set()) - want)[:4])}))
+                    break
     if len(ids) >= 2 and len(sub) >= 2:
         cnt['nontrivial_graphs'] += 1
     return viols[:6], cnt
@@ -152,14 +180,15 @@ def run(tier, seed):
               'brute_force_paths': sorted(map(repr, po.brute_paths(P, False, sorted(set(t for _, _, t in P)), nodes[0], None, None, None)))}
     return pathbase.run(
         PROP, LEVEL, eval_graph, tier, seed, cfs, nontrivial_key='nontrivial_graphs',
-        vacuity={'queries_with_3plus_paths': 100, 'chooser_answers': 100}, samples=[sample],
+        vacuity={'queries_with_3plus_paths': 100, 'chooser_answers': 100, 'incremental_queries': 1000}, samples=[sample],
         assumptions=['numpy.random.choice inside dynetx.algorithms.paths is replaced by a chooser whose every answer is enumerated '
                      '(all index subsets when <= 64, else a fixed family; caps counted in chooser_caps)',
                      'completeness is claimed on loop-free graphs only (DESIGN.md §3.9)'],
         rule='every loop-free temporal graph of the universes in per_universe x every source in the graph x every target (None, each node) x '
              'every integer (start,end) inside the id range and the None defaults: returned path set == independent brute-force enumeration '
              '(empty when the source has no interaction at start); all_time_respecting_paths x min_t == per-source results; sample<1: every '
-             'chooser answer yields a subset; non-trivial = graph with >= 2 snapshot ids and >= 2 timed interactions')
+             'chooser answer yields a subset; incremental pass: the graph is grown interaction by interaction on one object and queried after '
+             'every step (answers must track the graph); non-trivial = graph with >= 2 snapshot ids and >= 2 timed interactions')
 
 
 def replay(case):
